@@ -430,6 +430,7 @@ func ConcProfileFor(name string, seed int64) ConcProfile {
 		p.Writers = 2 + r.Intn(2)
 		p.Txns = 2
 		p.Prologue = []string{"block1", "three"}[r.Intn(2)]
+		p.Snapshot = r.Intn(2) == 0 // the stream is the same whether or not a snapshot is recording the commits meanwhile
 	case "c08": // a snapshot beside committing writers, parked at every point of both protocols
 		p.Cols = []ColDesc{{"a", "int", []string{"add", "affine"}[r.Intn(2)], numRepr()}, {"s", "str", "", "string"}}
 		p.Idx = []IdxDesc{{"big", "a", "ge", 5}}
